@@ -551,6 +551,39 @@ def size_probes(thorough=False):
     return out
 
 
+def size_grammars(thorough=False):
+    """Grammars whose automaton / tables pass the limits of 8-bit indices: > 256 states, > 256 rules, > 256 terminals,
+    > 256 nonterminals (a narrowed StateIndex / RuleIndex / column index is the target).  [(label, items)]"""
+    def term(names):
+        return {"kind": "terminal", "attrs": ["#[derive(Debug)]"], "name": "Tok", "variants": [{"name": n, "type": "usize"} for n in names]}
+    def tup(syms):
+        return {"kind": "tuple", "fields": [{"used": True, "sym": s} for s in syms]} if syms else {"kind": "empty"}
+    out = []
+    # one production of 270 symbols: a chain of > 256 states
+    out.append(("size-chain270", [{"kind": "start", "name": "S"},
+                {"kind": "struct", "attrs": ["#[derive(Debug)]"], "name": "S", "fieldset": tup([sym_t("ABC"[i % 3]) for i in range(270)])},
+                term(["A", "B", "C"])]))
+    # 300 alternatives: > 256 rules, a trie of > 256 states
+    def bits(i):
+        return [sym_t("AB"[(i >> k) & 1]) for k in range(9)]
+    out.append(("size-wide300", [{"kind": "start", "name": "E"},
+                {"kind": "enum", "attrs": ["#[derive(Debug)]"], "name": "E", "variants": [{"name": f"V{i}", "fieldset": tup(bits(i))} for i in range(300)]},
+                term(["A", "B"])]))
+    if not thorough:
+        return out          # the next two cost the list-based model ≈ 45 s each (flat table lookups)
+    # 260 terminals
+    out.append(("size-terminals260", [{"kind": "start", "name": "E"},
+                {"kind": "enum", "attrs": ["#[derive(Debug)]"], "name": "E", "variants": [{"name": f"V{i}", "fieldset": tup([sym_t(f"T{i}"), sym_t(f"T{(i * 7 + 1) % 260}")])} for i in range(260)]},
+                term([f"T{i}" for i in range(260)])]))
+    # 260 nonterminals in a chain
+    items = [{"kind": "start", "name": "N0"}]
+    for i in range(260):
+        items.append({"kind": "struct", "attrs": ["#[derive(Debug)]"], "name": f"N{i}", "fieldset": tup([sym_t("A"), sym_n(f"N{i + 1}")] if i < 259 else [sym_t("B")])})
+    items.append(term(["A", "B"]))
+    out.append(("size-nonterminals260", items))
+    return out
+
+
 def malformed_texts(rng, bases, n):
     """Mutations of valid texts plus raw fragments: the stream for C07/C08."""
     out = []
